@@ -116,9 +116,17 @@ func modelVerify(rec sigRecord, payload string) bool {
 	if err != nil {
 		return false
 	}
-	blk, _ := pem.Decode([]byte(rec.Certificate))
-	if blk == nil {
-		return false
+	// "the stored certificate": what every X.509 reader takes from a PEM text - the first block labelled CERTIFICATE
+	// (blocks with other labels are not certificates, whatever their bytes are)
+	var blk *pem.Block
+	for rest := []byte(rec.Certificate); ; {
+		blk, rest = pem.Decode(rest)
+		if blk == nil {
+			return false
+		}
+		if blk.Type == "CERTIFICATE" {
+			break
+		}
 	}
 	cert, err := x509.ParseCertificate(blk.Bytes)
 	if err != nil {
@@ -222,6 +230,42 @@ func (g *c15Gen) tamper(rec sigRecord) (sigRecord, string) {
 	}
 }
 
+// reshape rewrites the certificate field as a PEM text with several blocks: the certificate the record was made for and
+// the certificate of another key, one of them under a label that does not denote a certificate.
+func (g *c15Gen) reshape(rec sigRecord) (sigRecord, string) {
+	own, _ := pem.Decode([]byte(rec.Certificate))
+	if own == nil || own.Type != "CERTIFICATE" {
+		return rec, ""
+	}
+	otherPEM := sigFixtureECDSA[2].CertPEM
+	if g.rng.Bool() {
+		otherPEM = sigFixtureRSA[g.rng.Intn(2)].CertPEM
+	}
+	if otherPEM == rec.Certificate {
+		otherPEM = sigFixtureECDSA[1].CertPEM
+	}
+	other, _ := pem.Decode([]byte(otherPEM))
+	label := []string{"X509 CRL", "PUBLIC KEY", "CERTIFICATE REQUEST"}[g.rng.Intn(3)]
+	enc := func(typ string, der []byte) string {
+		return string(pem.EncodeToMemory(&pem.Block{Type: typ, Bytes: der}))
+	}
+	switch g.rng.Intn(4) {
+	case 0:
+		// the signer's certificate under a foreign label first, somebody else's CERTIFICATE after it
+		rec.Certificate = enc(label, own.Bytes) + enc("CERTIFICATE", other.Bytes)
+		return rec, "cert-own-mislabelled-then-other"
+	case 1:
+		rec.Certificate = enc(label, other.Bytes) + enc("CERTIFICATE", own.Bytes)
+		return rec, "cert-other-mislabelled-then-own"
+	case 2:
+		rec.Certificate = enc("CERTIFICATE", own.Bytes) + enc("CERTIFICATE", other.Bytes)
+		return rec, "cert-own-then-other"
+	default:
+		rec.Certificate = enc(label, own.Bytes)
+		return rec, "cert-own-mislabelled-only"
+	}
+}
+
 func sigJSONOf(rec sigRecord) string {
 	bz, _ := json.Marshal(map[string]string{"signature": rec.Signature, "algorithm": rec.Algorithm, "certificate": rec.Certificate})
 	return string(bz)
@@ -258,6 +302,13 @@ func (g *c15Gen) txGen(r *kernel.Run, _ *kernel.Rng) *kernel.Tx {
 		var tk string
 		rec, tk = g.tamper(rec)
 		note = "store-tampered-" + tk
+	}
+	if rng.P(0.2) {
+		var sk string
+		if rec, sk = g.reshape(rec); sk != "" {
+			note += "+" + sk
+			r.Stats.Inc("probe.certificate_field_with_several_pem_blocks")
+		}
 	}
 	storageKey := hexHash(addr + ":" + refID)
 	switch rng.Intn(10) {
